@@ -321,7 +321,7 @@ func runC12(c *Ctx, r *Report) {
 			if !ok {
 				return false
 			}
-			if cal := call.Common().StaticCallee(); cal == quote || cal == wtf {
+			if callIs(call.Common(), quote) || callIs(call.Common(), wtf) {
 				return true
 			}
 			nm := calleeName(call.Common())
